@@ -70,8 +70,10 @@ Conforms(e) ==
     [] e.op = "curl.clone" -> e.out.panic = "" /\ e.out.same_state /\ e.in.id \in DOMAIN insts
     [] e.op = "curl.absorb" ->
          /\ e.out.panic = "" /\ e.in.id \in DOMAIN insts
-         /\ (e.out.err = "") <=> (ExpectedErr(e) = "")     \* which error is reported is not part of C06
-         /\ e.in.bad # "" => e.out.state_same             \* rejected calls leave the state untouched
+         /\ e.in.bad # "trit" => ((e.out.err = "") <=> (ExpectedErr(e) = ""))     \* which error is reported is not part of C06
+         /\ e.in.bad \notin {"", "trit"} => e.out.state_same                    \* rejected calls leave the state untouched
+         \* values that are not trits are outside the domain (accepting them is allowed); IF the call is rejected, the state is untouched
+         /\ e.in.bad = "trit" => (e.out.err # "" => e.out.state_same)
          /\ e.out.src_unchanged
     [] e.op = "curl.squeeze" ->
          /\ e.out.panic = "" /\ e.in.id \in DOMAIN insts
